@@ -44,15 +44,26 @@ func runC04(c *Ctx) {
 		return "'" + *p + "'"
 	}
 	n := 0
+	// signing layout / Destination presence the documents are built in:
+	// 0 Response signed, Destination present; 1 Assertion signed, Destination absent;
+	// 2 Assertion signed, Destination present; 3 both signed, Destination absent (then rejected: signed needs Destination)
+	lay := 0
+	noData := map[int]bool{} // confirmation positions rendered without SubjectConfirmationData
 	mk := func(cfg Cfg, ids []string, rIRT *string, cIRTs []*string, entry int, arIRT *string, class string) {
 		n++
 		rs, as := validSpecs(cfg, now, fmt.Sprint(n))
 		rs.IRT = rIRT
+		if lay == 1 || lay == 3 {
+			rs.Dest = nil
+		}
 		as.Confs = nil
-		for _, ci := range cIRTs {
-			as.Confs = append(as.Confs, ConfSpec{IRT: ci, Recipient: sp(cfg.AcsURL), NOA: sp(fmtMS(now + 3600*1000*ms))})
+		for i, ci := range cIRTs {
+			as.Confs = append(as.Confs, ConfSpec{IRT: ci, Recipient: sp(cfg.AcsURL), NOA: sp(fmtMS(now + 3600*1000*ms)), NoData: noData[i]})
 		}
 		a := buildAssertion(as)
+		if lay != 0 {
+			SignInto(a, 0)
+		}
 		r := buildResponse(rs, a)
 		key := map[string]string{"class": class, "ids": strings.Join(ids, ","), "nids": fmt.Sprint(len(ids)), "resp_irt": irtName(rIRT), "entry": fmt.Sprint(entry)}
 		for i, ci := range cIRTs {
@@ -62,8 +73,12 @@ func runC04(c *Ctx) {
 		c.Count("nids/" + fmt.Sprint(len(ids)))
 		c.Count("resp_irt/" + irtName(rIRT))
 		run := &Run{Cfg: cfg, IDs: ids, Now: now, Cur: cfg.AcsURL, Entry: entry}
+		key["layout"] = fmt.Sprint(lay)
+		c.Count("layout/" + fmt.Sprint(lay))
 		if entry == 0 {
-			SignInto(r, 0)
+			if lay == 0 || lay == 3 {
+				SignInto(r, 0)
+			}
 			run.Doc = r
 		} else {
 			ars := RespSpec{Tag: "ArtifactResponse", ID: fmt.Sprintf("ar-%d", n), IRT: arIRT, Issue: rs.Issue, Issuer: sp(cfg.IdpEntity), Status: sp(statusSuccess)}
@@ -82,10 +97,42 @@ func runC04(c *Ctx) {
 				if !c.Thorough() && ri != 0 && ci != 0 && (si+ri+ci)%3 != 0 {
 					continue
 				}
-				mk(cfg, ids, rirt, []*string{cirt}, 0, nil, "product")
+				for _, l := range []int{0, 1} {
+					if l == 1 && !c.Thorough() && ri != 0 && ci != 0 {
+						continue
+					}
+					lay = l
+					mk(cfg, ids, rirt, []*string{cirt}, 0, nil, "product")
+				}
+				lay = 0
 			}
 		}
 	}
+	// every signing layout x Destination presence, response-level and confirmation-level ids wrong in turn
+	for _, l := range []int{0, 1, 2, 3} {
+		lay = l
+		for _, ids := range [][]string{{id}, {}, {""}} {
+			for _, rirt := range []*string{sp(id), sp("id-0000000000"), sp(""), nil} {
+				for _, cirt := range []*string{sp(id), sp("id-0000000000"), nil} {
+					mk(cfg, ids, rirt, []*string{cirt}, 0, nil, "layouts")
+				}
+			}
+		}
+	}
+	lay = 0
+	// confirmations without SubjectConfirmationData answer no request: alone or beside a matching one
+	for _, l := range []int{0, 1} {
+		lay = l
+		for _, nd := range []map[int]bool{{0: true}, {1: true}, {0: true, 1: true}} {
+			noData = nd
+			for _, ids := range [][]string{{id}, {""}} {
+				mk(cfg, ids, sp(id), []*string{sp(id), sp(id)}, 0, nil, "confirmation-without-data")
+				mk(cfg, ids, sp(id), []*string{sp(id)}, 0, nil, "confirmation-without-data")
+			}
+		}
+		noData = map[int]bool{}
+	}
+	lay = 0
 	// two confirmations, the odd one at each position
 	for _, ids := range [][]string{{id}, {id, id2}, {""}} {
 		for _, bad := range irts[1:] {
